@@ -253,15 +253,30 @@ def run_gather(acc, c, only_prefix=None):
         acc.sample({"case": c, "schedules": nex})
 
 
+def async_hist_cases(tier):
+    """sequences of awaits on ONE AsyncDAG object (arguments given / defaulted, setup() in between, a setup node still pending at the
+    first await): judged like the histories of C15, whose sync flavour is the reference behaviour"""
+    ops = (0, 1, 12, 4, 6)  # call(a1,a2), call(a5), setup(), e=executor(), e(a1,a2)
+    for name in ("setup", "linear"):
+        for depth in (1, 2, 3):
+            for hist in itertools.product(ops, repeat=depth):
+                if depth == 3 and (name != "setup" or 0 not in hist or 1 not in hist):
+                    continue
+                yield dict(kind="async_hist", dag=name, is_async=True, hist=list(hist))
+
+
 def cases(tier):
-    return itertools.chain(gather_cases(tier), flavour_cases(tier))
+    return itertools.chain(gather_cases(tier), flavour_cases(tier), async_hist_cases(tier))
 
 
 def run_shard(tier, k, n, acc):
     from ..monitors import mon_c02, mon_c03, mon_c09
     from ..sched import run_case
     for c in shard_iter(cases(tier), k, n, acc):
-        if c["kind"] == "flavour":
+        if c["kind"] == "async_hist":
+            from . import c15
+            c15.run_hist(acc, {k_: c[k_] for k_ in ("dag", "is_async", "hist")})
+        elif c["kind"] == "flavour":
             run_flavour(acc, c)
         elif c["kind"] == "async_sched":
             run_case(acc, c, [mon_c02, mon_c03, mon_c09], lambda view: tuple(e[1] for e in view.trace if e[0] in ("enter", "exit")))
@@ -278,7 +293,10 @@ def replay(v):
         from ..sched import replay_case
         res, viols = replay_case(c, [mon_c02, mon_c03, mon_c09], v["prefix"])
         return viols, res.trace
-    if c.get("kind") == "gather":
+    if "hist" in c and "dag" in c:
+        from . import c15
+        c15.run_hist(a, {k_: c[k_] for k_ in ("dag", "is_async", "hist")})
+    elif c.get("kind") == "gather":
         run_gather(a, c, only_prefix=v["prefix"])
     else:
         run_flavour(a, {k: c[k] for k in c if k not in ("is_async", "args")})
